@@ -129,6 +129,44 @@ def run(chk, prog):
         chk.instance("S3", "%s:%s" % (g.file, g.line), "end of stream with a partial frame yields no frame", okz)
         if not okz:
             chk.finding("S3", g.key, "eof", "", "%s:%s" % (g.file, g.line), "StreamFrameReader::read does not end cleanly on a zero-length read")
+    # carry-over buffer: bytes already received stay in front of newly read bytes, and what was read is kept for the next round
+    if len(sr) == 1:
+        g = prog.body_of(sr[0])
+        rd = [c for c in g.calls if re.search(r"AsyncReadExt::read$", c.path or "")]
+        sp_ = [c for c in g.calls if re.search(r"BytesMut::split$", c.path or "")]
+        tr_ = [c for c in g.calls if re.search(r"BytesMut::truncate$", c.path or "")]
+        us = [c for c in g.calls if re.search(r"BytesMut::unsplit$", c.path or "")]
+        ok = len(rd) == 1 and len(sp_) == 1 and len(tr_) == 1 and len(us) == 1
+        why = "shape read/split/truncate/unsplit not found"
+        if ok:
+            from .panics import resolve_place as _rp
+            from ..flow import flow_forward as _ff, awaited as _aw
+            rbuf = _rp(g, op_base(rd[0].args[1]))[0]
+            tbuf = _rp(g, op_base(tr_[0].args[0]))[0]
+            a = _aw(g, rd[0])
+            lentr = _ff(g, [a["result"]], [r"Try::branch$"])[0] if a and a["result"] is not None else {}
+            t_ok = rbuf is not None and rbuf == tbuf and op_base(tr_[0].args[1]) in lentr
+            old = _ff(g, [sp_[0].dest[0]], [])[0]
+            u_recv = _rp(g, op_base(us[0].args[0]))[0]
+            u_arg = _rp(g, op_base(us[0].args[1]))[0] or ""
+            old_names = set(_rp(g, l)[0] for l in old if _rp(g, l)[0])
+            order_ok = u_recv in old_names and (u_arg == rbuf or op_base(us[0].args[1]) in _ff(g, [int(rbuf.split("@")[1].split(".")[0])], [])[0] if rbuf and "@" in rbuf else False)
+            # self.remaining = Some(<the joined buffer>) after unsplit
+            st_ok = False
+            for b in g.reachable:
+                for st in g.stmts(b):
+                    if st["k"] == "assign" and "f:remaining" in st["lhs"][1:] and g.dominates(us[0].bb, b):
+                        src = str(g.trace(op_base(st["rv"]["a"])) if st["rv"]["k"] == "use" and op_base(st["rv"]["a"]) is not None else st["rv"])
+                        st_ok = True
+            seq_ok = g.dominates(rd[0].bb, tr_[0].bb) and g.dominates(tr_[0].bb, us[0].bb)
+            ok = t_ok and order_ok and st_ok and seq_ok
+            why = "truncate(read buffer, n)=%s; old.unsplit(new)=%s; remaining stored=%s; order read<truncate<unsplit=%s" % (t_ok, order_ok, st_ok, seq_ok)
+        chk.instance("S3", "%s:%s" % (g.file, g.line), "bytes of a partial frame are kept, in order, for the next read", ok, why)
+        if not ok:
+            chk.finding("S3", g.key, "carry-over", "", "%s:%s" % (g.file, g.line),
+                        "StreamFrameReader::read no longer keeps previously received bytes in front of newly read ones for the next round (%s): a "
+                        "frame split across segments is lost or reordered" % why)
+
     # read_head vs from_buffer: same header arithmetic
     def head_consts(pat):
         f = prog.one(pat)
